@@ -136,7 +136,15 @@ def build_cases(work, tier, rnd, gen_exprs=None):
             t = _d.unescape(c['text'])
             carrier = CARRIERS[(len(t) + k_) % len(CARRIERS)]
             cases.append({'api': api_of(c), 'culture': c.get('culture', 'en-us'), 'text': carrier.format(t), 'ref': c.get('ref') or '2019-03-10T12:00:00', 'src': 'generated:' + mod})
-    gens = [{'module': 'Gen_Mods + expression generators of C03, C06-C08, C10, C20', 'cfg': 'quick configurations', 'distinct_states': extra_states},
+    # the range expressions of C10 / C11: every zh-cn one, a sample of the English ones
+    g5, st5 = flow.generate(work, 'Gen_Ranges', 'Gen_Ranges.cfg')
+    st5.sort(key=lambda s_: json.dumps(s_['c'], sort_keys=True, ensure_ascii=False))
+    zh5 = [s_ for s_ in st5 if s_['c']['culture'] == 'zh-cn']
+    en5 = [s_ for s_ in st5 if s_['c']['culture'] != 'zh-cn']
+    for s_ in zh5 + flow.sample_evenly(en5, 150 if tier == 'quick' else 2000):
+        cases.append({'api': 'datetime', 'culture': s_['c']['culture'], 'text': _d.unescape(s_['c']['text']), 'ref': s_['c']['ref'], 'src': 'generated:Gen_Ranges'})
+    extra_states += g5['distinct']
+    gens = [{'module': 'Gen_Mods + Gen_Ranges + expression generators of C03, C06-C08, C10, C20', 'cfg': 'quick configurations', 'distinct_states': extra_states},
             {'module': 'Gen_Noise', 'cfg': 'Gen_Noise_2.cfg', 'distinct_states': g1['distinct']},
             {'module': 'Gen_Noise', 'cfg': 'Gen_Noise_walk.cfg (simulate)', 'distinct_states': g2['generated']},
             {'module': 'Gen_Noise', 'cfg': 'Gen_Noise_plan.cfg', 'distinct_states': g2b['distinct']}]
